@@ -167,6 +167,17 @@ class Maker:
                 self.values[name] = self.drawn[name] = _draw_real(self.rng, lo, hi, pos)
         return float(self.values.get(name, 1.0 if pos else 0.0))
 
+    def string(self, name):
+        """a symbolic string (<= 12 characters, 8-bit); replay uses the string read off the model"""
+        if self.sym:
+            v = symx.SymStr(name)
+            self.inputs.append((name, 'str', (v.chars, v.length)))
+            return v
+        if name not in self.values and self.rng is not None:
+            alphabet = 'abAB.-_ /regRGfitscrdz9'
+            self.values[name] = self.drawn[name] = ''.join(self.rng.choice(alphabet) for _ in range(self.rng.randint(0, 12)))
+        return str(self.values.get(name, ''))
+
     def pos(self, name, hi=None):
         return self.real(name, pos=True, hi=hi)
 
@@ -308,6 +319,10 @@ def concrete_inputs(inputs, model):
                 vals['__nonintegral__'] = True
         elif kind == 'bool':
             vals[name] = bool(solve.model_value(model, info))
+        elif kind == 'str':
+            chars, length = info
+            n = int(round(solve.model_value(model, length)))
+            vals[name] = ''.join(chr(int(round(solve.model_value(model, ch))) % 256) for ch in chars[:max(0, min(n, len(chars)))])
         elif kind == 'angle':
             a, cc, ss, unit = info
             c = solve.model_value(model, cc)
